@@ -26,15 +26,17 @@ TRUSTED = [
 STR_POOL = ["a", "b", "1", "2", "-3", "007", "True", "False", "nan", "NaN", "now", "", "é", "日本", "x y", " lead",
             "0.7", ".7", "1e5", "2020-01-01", "1_0", "+1", "a.b", "a-b", "None", "inf", "1.0", "0x10", "t", "T",
             "2020-01-01T00:00:00", "1 days", "A" * 30, "\U0001F600", "-", "null", "0", "1.5", "TRUE", "#", "a%20b",
-            "a*b", "[x]", "q?", "a:b", "tab\tx", "~", "a b ", "-inf", "1e400"]
+            "a*b", "[x]", "q?", "a:b", "tab\tx", "~", "a b ", "-inf", "1e400",
+            "B", "\u00e9t\u00e9", "e\u0301te\u0301", "x ", "x", "\u212b", "\u00c5", "ss", "\u00df", "I", "\u0131"]      # case / normalisation / whitespace pairs
 ADVERSARIAL = STR_POOL + ["true", " 7 ", "7 ", "\t7", "1__0", "_1", "1_", "--1", "+-1", "1e", "e5", "1.", "-.5e-3",
                           "Infinity", "-inf", "0b1", "12abc", "2020-13-01", "20200101_120000.000000",
                           "20200101_120000.5", "2020-01-01 01:02:03.5", "2020-01-01T01:02:03.000000005",
                           "1677-01-01", "3000-01-01", "1 day", "5min", "P1D", "9223372036854775808",
                           "-9223372036854775809", "18446744073709551615", "18446744073709551616", "255", "256", "-129",
                           "dir0", "part.0.parquet", "k=v"]
-KINDS = [[0, True, 64], [0, True, 8], [0, True, 32], [0, False, 8], [0, False, 64], [1], [2], [3, False], [3, True], [4, True], [4, False], [5], [7]]
-META_OF_KIND = {
+KINDS = [[0, True, 64], [0, True, 8], [0, True, 32], [0, False, 8], [0, False, 64], [1], [2], [3, False], [3, True], [4, True], [4, False], [5], [7],
+         [5, [0, True, 64]], [5, [0, True, 8]], [5, [1]], [5, [2]], [5, [3, False]], [5, [4, True]], [5, [7]]]    # categorical with recorded label type
+_META_OF_KIND = {
     (0, True, 64): {"pandas_type": "int64", "numpy_type": "int64"},
     (0, True, 8): {"pandas_type": "int8", "numpy_type": "int8"},
     (0, True, 32): {"pandas_type": "int32", "numpy_type": "int32"},
@@ -49,6 +51,13 @@ META_OF_KIND = {
     (5,): {"pandas_type": "categorical", "numpy_type": "int8"},
     (7,): {"pandas_type": "datetimetz", "numpy_type": "datetime64[ns, UTC]", "metadata": {"timezone": "UTC"}},
 }
+
+
+def meta_of_kind(kind):
+    """model kind (s-expression) -> a pandas-metadata block as fastparquet writes it"""
+    if kind[0] == 5 and len(kind) > 1:
+        return {"pandas_type": "categorical", "numpy_type": "int8", "metadata": {"num_categories": 3, "ordered": False, "labels": meta_of_kind(kind[1])}}
+    return dict(_META_OF_KIND[tuple(kind)])
 
 
 def rand_typed_value(rng):
@@ -170,12 +179,12 @@ def _run(ctx, pq):
             x = util.path_string(v)
         else:
             x = rng.choice(ADVERSARIAL)
-        if kind[0] in (4, 7) and x.strip().lower() in ("now", "today"):
+        if (kind[0] in (4, 7) or (kind[0] == 5 and len(kind) > 1 and kind[1][0] in (4, 7))) and x.strip().lower() in ("now", "today"):
             x = "2001-02-03"            # np.datetime64("now") is the wall clock: not a function of the text
         texts.append((kind, x))
     table = L.oracle_table([x for _, x in texts])
     for kind, x in texts:
-        m = dict(META_OF_KIND[tuple(kind)])
+        m = meta_of_kind(kind)
         cmds.append(("val_from_meta", kind, L.enc(x), [e for e in table if e[0] == L.enc(x)]))
         impl = _impl_call(util.val_from_meta, x, m)
         meta.append(({"corr": "val_from_meta", "kind": kind, "text": x}, impl))
@@ -216,7 +225,8 @@ def _run(ctx, pq):
         names = rng.sample(["a", "b", "c_1", "dir0", "Key"], depth)
         kinds = [rng.choice(KINDS + [None, None]) for _ in range(depth)]
         pools = []
-        any_time = any(kd is not None and kd[0] in (4, 7) for kd in kinds)     # "now" is the wall clock for time kinds
+        any_time = any(kd is not None and (kd[0] in (4, 7) or (kd[0] == 5 and len(kd) > 1 and kd[1][0] in (4, 7)))
+                       for kd in kinds)     # "now" is the wall clock for time kinds
         for kd in kinds:
             pool = []
             for _ in range(rng.choice([1, 2, 3])):
@@ -226,8 +236,9 @@ def _run(ctx, pq):
                 else:
                     while True:
                         v, k = rand_typed_value(rng)
-                        if {0: "i", 1: "b", 2: "s", 3: "f", 4: "t", 5: "s", 7: "t"}[kd[0]] == k and \
-                                (k != "t" or (getattr(v, "tzinfo", None) is not None) == (kd[0] == 7)):
+                        bk = kd[1] if (kd[0] == 5 and len(kd) > 1) else kd        # labels of a categorical with recorded type
+                        if {0: "i", 1: "b", 2: "s", 3: "f", 4: "t", 5: "s", 7: "t"}[bk[0]] == k and \
+                                (k != "t" or (getattr(v, "tzinfo", None) is not None) == (bk[0] == 7)):
                             break
                     t = util.path_string(v)
                     pool.append(t if L.legal_text(t, True) else "z")
@@ -247,7 +258,7 @@ def _run(ctx, pq):
             d = "/".join(segs)
             if d not in dirs:
                 dirs.append(d)
-        pm = {nm: dict(META_OF_KIND[tuple(kd)], field_name=nm) for nm, kd in zip(names, kinds) if kd is not None}
+        pm = {nm: dict(meta_of_kind(kd), field_name=nm) for nm, kd in zip(names, kinds) if kd is not None}
         pmx = [[L.enc(nm), kd] for nm, kd in zip(names, kinds) if kd is not None]
         alltexts = [t for d in dirs for seg in d.split("/") for t in ([seg] + seg.split("="))]
         table = L.oracle_table(alltexts)
@@ -293,7 +304,7 @@ def _run(ctx, pq):
 
     # ---------------------------------------------------------------- E: whole datasets
     n_e = 160 if quick else 1500
-    cases = L.load_corpus("C08") + [gen_frame_case(rng, i < (10 if quick else 40), i) for i in range(n_e)]   # corpus, confirmation/regression streams, random
+    cases = L.load_corpus("C08") + [gen_frame_case(rng, i < (14 if quick else 56), i) for i in range(n_e)]   # corpus, confirmation/regression streams, random
     # forked workers (harness.common.pmap): a native crash or a hang while writing/reading is a failing input
     results = L.run_dataset_jobs(ctx, check_dataset, cases, "e", _replayable)
     for case, res in zip(cases, results):
@@ -334,9 +345,11 @@ def gen_column(rng, kind, n, drill):
         return pd.Series(np.array([rng.choice(vals) for _ in range(n)], dtype=bool))
     if kind == "float":
         dt = rng.choice(["float64", "float64", "float32"])
-        pool = [0.5, 1.0, -2.25, 0.1, 1e22, 1e-7, 3.0, 123456.125, float("inf"), 0.0, 1e16, 2.5e-10]
+        pool = [0.5, 1.0, -2.25, 0.1, 1e22, 1e-7, 3.0, 123456.125, float("inf"), 0.0, 1e16, 2.5e-10,
+                0.30000000000000004, 1 / 3, 9007199254740993.0, 1.7976931348623157e308, 5e-324, 1234567.890123456, -float("inf")]
         vals = rng.sample(pool, card) + ([float("nan")] if nulls else [])
-        return pd.Series(np.array([rng.choice(vals) for _ in range(n)], dtype=dt))
+        with np.errstate(over="ignore"):       # float32 columns may hold inf for the largest doubles
+            return pd.Series(np.array([rng.choice(vals) for _ in range(n)], dtype=dt))
     if kind == "time":
         unit = rng.choice(["ns", "us", "ms", "s"])
         mult = {"s": 1, "ms": 10**3, "us": 10**6, "ns": 10**9}[unit]
@@ -351,6 +364,21 @@ def gen_column(rng, kind, n, drill):
         pool = [t for t in STR_POOL if L.legal_text(t, drill)]
         vals = rng.sample(pool, min(card, len(pool))) + ([None] if nulls else [])
         return pd.Series(np.array([rng.choice(vals) for _ in range(n)] + [None], dtype=object)[:-1])
+    if kind == "pct":       # text that a reader must not "decode": percent sequences, '+', spaces, unicode
+        pool = ["a%2Fb", "A%42", "AB", "%", "100%", "a+b", "a b", "%41", "A", "%zz", "caf%C3%A9", "café", "x%25", "x%", "%2F", "%E2%82%AC", "€"]
+        vals = rng.sample(pool, min(max(card, 2), len(pool))) + ([None] if nulls else [])
+        if rng.random() < 0.5:
+            vals += rng.choice([["A%42", "AB"], ["%41", "A"], ["caf%C3%A9", "café"], ["x%25", "x%"]])     # pairs a decoder collapses
+        return pd.Series(np.array([rng.choice(vals) for _ in range(n)] + [None], dtype=object)[:-1])
+    if kind == "catnumtxt":  # categorical whose TEXT labels look like numbers (codes int8, or int16 with many categories)
+        cats = rng.sample(["1", "2", "7", "-3", "10"], rng.choice([3, 4])) if rng.random() < 0.7 else [str(x) for x in range(200)]
+        used = rng.sample(cats, min(len(cats), rng.choice([2, 3])))
+        codes = [cats.index(rng.choice(used)) for _ in range(n)]
+        return pd.Series(pd.Categorical.from_codes(codes, categories=cats))
+    if kind == "intshare":   # small-integer column whose value texts coincide with the labels above
+        dt = rng.choice(["int8", "int8", "int16"])
+        vals = rng.sample([1, 2, 7, -3, 10, 0, 100], rng.choice([2, 3]))
+        return pd.Series(np.array([rng.choice(vals) for _ in range(n)], dtype=dt))
     if kind == "cat":
         cats = rng.sample([t for t in ["a", "b", "é", "x y", "A" * 30, "c.d", "zz", "#"]], rng.choice([2, 3, 4]))
         used = rng.sample(cats, rng.choice([1, 2, len(cats)]))
@@ -382,8 +410,11 @@ def gen_column(rng, kind, n, drill):
         return pd.Series(a).dt.tz_localize("UTC").dt.tz_convert(rng.choice(["UTC", "Europe/Berlin", "America/New_York", "Asia/Kolkata"]))
     if kind == "allnull":
         return pd.Series(np.array([None if (r // 2) % 2 == 0 else "z" for r in range(n)], dtype=object))
-    if kind == "catnum":
-        cats = rng.sample([1, 2, 3, 10, -4], 3)
+    if kind == "catnum":       # categorical whose labels are numbers, booleans or timestamps (label type recorded since fix)
+        lt = rng.choice(["int", "int", "float", "bool", "ts", "i8"])
+        cats = {"int": rng.sample([1, 2, 3, 10, -4, 2**40], 3), "float": rng.sample([0.5, 2.0, -1.25, 1e10], 3), "bool": [True, False],
+                "ts": [pd.Timestamp("2020-01-01"), pd.Timestamp("2020-01-02 03:04:05.123456"), pd.Timestamp("1999-12-31 23:59:59")],
+                "i8": list(np.array(rng.sample([1, -3, 7, 100], 3), dtype="int8"))}[lt]
         codes = [rng.randrange(2) for _ in range(n)]
         return pd.Series(pd.Categorical.from_codes(codes, categories=cats))
     raise ValueError(kind)
@@ -396,8 +427,8 @@ def gen_frame_case(rng, confirm, i):
     n = rng.choice([0, 1, 2, 3, 5, 8, 13, 21, 34]) if i % 9 else rng.choice([0, 1])
     n_on = rng.choice([1, 1, 2, 2, 3])
     kinds = [rng.choice(["int", "int", "bool", "float", "time", "str", "strnum" if scheme == "hive" else "str", "cat",
-                         "intx", "boolx", "floatx", "strx", "timetz"]) for _ in range(n_on)]
-    which = i % 5 if confirm else -1
+                         "intx", "boolx", "floatx", "strx", "timetz", "pct", "catnumtxt", "intshare"]) for _ in range(n_on)]
+    which = i % 7 if confirm else -1
     if confirm:
         if which == 0:
             scheme, kinds[0] = "hive", "catnum"
@@ -405,6 +436,10 @@ def gen_frame_case(rng, confirm, i):
             scheme, kinds = "drill", ["strnum"] + kinds[1:]
         elif which == 4:        # regression stream of fix for tz-aware partition columns
             scheme, kinds[0] = "hive", "timetz"
+        elif which == 5:        # a text-labelled categorical with numeric-looking labels next to a small-int column sharing the texts
+            scheme, n_on, kinds = "hive", 2, rng.choice([["catnumtxt", "intshare"], ["intshare", "catnumtxt"]])
+        elif which == 6:        # percent sequences and friends in text keys
+            kinds[0] = "pct"
         elif which == 2:
             scheme, n_on, kinds = "drill", 2, [rng.choice(["str", "int"]), rng.choice(["bool", "time", "int"])]
         else:       # regression stream of fix d63c479: categorical key next to a key column that is all NULL in a chunk
@@ -572,7 +607,7 @@ def check_dataset(case, root, pq, ctx=None, verbose=False):
                     gotc = sorted({json.dumps(L.canon(v)) for v in pf.cats.get(c, [])})
                 except Exception as e:      # noqa
                     gotc = ["raises %s" % type(e).__name__]
-                if gotc != wantc and not (is_cat[c] and label_kind[c] != "s"):
+                if gotc != wantc:
                     problems.append("ParquetFile.cats[%r] = %s, keys written %s" % (c, gotc[:6], wantc[:6]))
                     cls_extra["mismatch"] = "value"
         by_id = {}
@@ -590,6 +625,39 @@ def check_dataset(case, root, pq, ctx=None, verbose=False):
                         break
                     row[c] = L.canon(out[c].iloc[pos])
             by_id[rid] = row
+        # partial handles derive the partition columns again from a subset of the paths: a slice of the row groups and the
+        # row-group iterator must show, for every row, the same partition cells as the full read
+        if not problems and len(pf.row_groups) > 1:
+            def cells_of(frame, what):
+                for pos in range(len(frame)):
+                    rid = int(frame["id"].iloc[pos])
+                    got_cells = {c: L.canon(frame[c].iloc[pos]) for c in pcols if c in frame.columns}
+                    if not hive and rid in texts and set(got_cells) == set(by_id.get(rid, {})):
+                        # drill levels are untyped: a partial handle guesses from the values IT sees (text / the guessed value /
+                        # numerically equal are all "the key text"), so only the drill rule itself is demanded of each cell
+                        okc = True
+                        for j2, c2 in enumerate(pcols):
+                            g2, t2 = got_cells[c2], texts[rid][j2]
+                            gm2 = L.from_model(pq.call("val_to_num", L.enc(t2), [L.oracle_entry(t2)]))
+                            okc = okc and (g2 == ["s", t2] or g2 == gm2 or g2 == by_id[rid][c2] or
+                                           (g2[0] in "bif" and gm2[0] in "bif" and float(_num(g2)) == float(_num(gm2))))
+                        if okc:
+                            continue
+                    if got_cells != by_id.get(rid):
+                        problems.append("%s: row %d has partition cells %r, the full read %r" % (what, rid, got_cells, by_id.get(rid)))
+                        cls_extra["mismatch"] = "value"
+                        return
+            try:
+                cells_of(pf[1:].to_pandas(), "ParquetFile(dir)[1:].to_pandas()")
+                seen_rg = 0
+                for frame in pf.iter_row_groups():
+                    seen_rg += len(frame)
+                    cells_of(frame, "iter_row_groups()")
+                if seen_rg != len(ids):
+                    problems.append("iter_row_groups() yields %d rows, the full read %d" % (seen_rg, len(ids)))
+            except Exception as e:      # noqa
+                problems.append("partial read of the dataset raised %s: %s" % (type(e).__name__, str(e)[:150]))
+                cls_extra["stage"] = "partial-read"
         # the property: original names, values and value kinds (hive); positional columns carrying the key text (drill)
         for rid in ids:
             if rid not in texts or problems:
@@ -636,6 +704,30 @@ def check_dataset(case, root, pq, ctx=None, verbose=False):
                 model = [model[0], [[rid, [[c, L.num_norm(v)] for c, v in cells]] for rid, cells in model[1]]]
                 impl = [impl[0], [[rid, [[c, L.num_norm(v)] for c, v in cells]] for rid, cells in impl[1]]]
             ctx.correspondence("read_model ~ ParquetFile(dir).to_pandas() partition columns", _replayable(case), model, impl)
+        # ---- the same directory WITHOUT its summary files: opened through the file listing (the machinery of C14), the
+        #      rows and (hive) the partition cells must be the same
+        if not problems and alive:
+            for junk in ("_metadata", "_common_metadata"):
+                try:
+                    os.unlink(os.path.join(root, junk))
+                except OSError:
+                    pass
+            try:
+                pf2 = ParquetFile(root)
+                out2 = pf2.to_pandas()
+                ids2 = [int(x) for x in out2["id"]]
+                if sorted(ids2) != sorted(alive):
+                    problems.append("without _metadata: row ids %r, expected %r" % (sorted(ids2)[:20], sorted(alive)[:20]))
+                elif hive:
+                    for pos, rid in enumerate(ids2):
+                        cells2 = {c: L.canon(out2[c].iloc[pos]) for c in pcols if c in out2.columns}
+                        if cells2 != by_id[rid]:
+                            problems.append("without _metadata: row %d has partition cells %r, with it %r" % (rid, cells2, by_id[rid]))
+                            break
+            except Exception as e:      # noqa
+                problems.append("opening the directory without _metadata raised %s: %s" % (type(e).__name__, str(e)[:150]))
+            if problems:
+                cls_extra["stage"] = "no-summary"
     elif ctx is not None:
         try:
             pf = ParquetFile(root)
